@@ -42,7 +42,10 @@ IsPseudo(n) == Len(n) > 0 /\ SubSeq(n, 1, 1) = ":"
 PseudoOf(list, n) == LET idx == {i \in 1..Len(list) : list[i].name = n} IN
                      IF idx = {} THEN <<>> ELSE <<list[CHOOSE i \in idx : \A j \in idx : j <= i].value>>
 AsHdr(e) == [t |-> "plain", name |-> e.name, ln |-> Lower(e.name), lws |-> "", value |-> e.value, rws |-> ""]
-Regular(list) == LET r == SelectSeq(list, LAMBDA e : ~IsPseudo(e.name)) IN [i \in 1..Len(r) |-> AsHdr(r[i])]
+\* the five pseudo-headers of RFC 7540 carry the request / status line; any other field -- also one whose name begins with a colon
+\* (":protocol" of RFC 8441) -- is a member of the header list like every other
+LinePseudo(n) == n \in {":method", ":path", ":authority", ":scheme", ":status"}
+Regular(list) == LET r == SelectSeq(list, LAMBDA e : ~LinePseudo(e.name)) IN [i \in 1..Len(r) |-> AsHdr(r[i])]
 
 \* HPACK can carry a field with an empty value; such a field says nothing: an empty referer or user-agent is reported as
 \* absent (the referer reported is the last one that has a value), an empty cookie field contributes no pair
